@@ -1164,10 +1164,13 @@ func genBinCopy(_ *rand.Rand, id string) *Case {
 	xb = append(xb, "b.")
 	// corruption
 	valid := true
+	badRow := -1     // the row whose field count lies
+	prefixOnly := false // only rows of the original stream may be returned
 	switch r.Intn(9) {
 	case 0:
 		if nrows > 0 { // field count off by one in some row
-			p := rowStarts[r.Intn(nrows)]
+			badRow = r.Intn(nrows)
+			p := rowStarts[badRow]
 			d := 1
 			if r.Intn(2) == 0 && ncols > 1 {
 				d = -1
@@ -1179,6 +1182,7 @@ func genBinCopy(_ *rand.Rand, id string) *Case {
 		if len(stream) > 3 { // truncated somewhere
 			stream = stream[:1+r.Intn(len(stream)-1)]
 			valid = false
+			prefixOnly = true
 		}
 	case 2:
 		if nrows > 0 { // a corrupted field length word
@@ -1191,6 +1195,7 @@ func genBinCopy(_ *rand.Rand, id string) *Case {
 		if trailer { // data after the trailer
 			stream = append(stream, randBytes(r, 1+r.Intn(4), false)...)
 			valid = false
+			prefixOnly = true
 		}
 	}
 	// chunking
@@ -1249,6 +1254,14 @@ func genBinCopy(_ *rand.Rand, id string) *Case {
 	in = append(in, msgCopyDone()...)
 	in = append(in, msgQuery(probeQuery("END", 0))...)
 	c.In = in
+	if badRow >= 0 {
+		// the rows before the lying one, then an error: never a crash, never a fabricated row
+		c.Extra["xbk"] = "=" + strings.Join(xb[:badRow], ";")
+	}
+	if prefixOnly {
+		// whatever is returned as a row is a row the client encoded, in order
+		c.Extra["xbg"] = "=" + strings.Join(xb[:len(xb)-1], ";")
+	}
 	if valid {
 		c.Extra["xb"] = "=" + strings.Join(xb, ";")
 		c.Extra["xp"] = "T" + strconv.Itoa(ncols) + ",G," + "C" + hxs("COPY") + ",Z," + xpC("END") + ",Z"
